@@ -22,7 +22,7 @@ SPEC = dict(
          'magnitude bucket of a x bucket of b; PID: operator, order, table kinds, number of active e sets, number of active ec sets, '
          'outcome) - NOT the number of evaluations.',
     exhaustive={'quick': None, 'thorough': None},
-    require=['w-fuzzy-gains-weighted-mean', 'w-mf-range', 'w-mf-pairs-complementary', 'mf-range', 'mf-core-one', 'mf-support-zero', 'mf-formula', 'mf-monotone', 'mf-continuity', 'mf-s+z=1', 'mf-lins+linz=1',
+    require=['mf-range-extreme-parameters', 'w-fuzzy-gains-weighted-mean', 'w-mf-range', 'w-mf-pairs-complementary', 'mf-range', 'mf-core-one', 'mf-support-zero', 'mf-formula', 'mf-monotone', 'mf-continuity', 'mf-s+z=1', 'mf-lins+linz=1',
              'mf-dispatcher', 'op-commutative', 'op-formula', 'op-class-bound', 'op-monotone', 'op-boundary', 'op-inline==exported',
              'op-pid-selector', 'op-not', 'op-equ_', 'pid-bfuzz-layout', 'pid-opr-default', 'pid-partition-bound-2',
              'pid-gain-base-when-nothing-fires', 'pid-gain-finite', 'pid-gain-in-consequent-range', 'pid-gain-weighted-mean'],
@@ -36,6 +36,7 @@ SPEC = dict(
         'full harness: a_real = double (A_SIZE_REAL 8), glibc libm exp/pow/sqrt (error < 1 ulp) behind a_real_exp/pow/sqrt; the float and long double builds '
         'run the compact companion h_fuzzy_w.c only (membership range clauses, fuzzy gain scheduling with an exact-size scratch block against the binary128 weighted mean; '
         'even orders only in long double, where odd orders misalign the scratch layout - observed, outside the property text)',
+        'range clause over the WHOLE finite parameter domain (h_mf_extreme.h: +-MAX, MAX/2, MAX/3, sqrt MAX, 1, eps, MIN, subnormals, 0, adjacent values; x from the pool, the parameters, their neighbours and midpoints) for every family in every width; the formula, continuity, monotonicity and complementarity clauses need resolvable widths and use the restricted domain that follows',
         'parameter domain as in the quantifier: a<=b<=c<=d for trap/tri/lins/linz (all equalities included), non-zero widths for '
         'gauss/gauss2/gbell/sig/psig/s/z/pi, equal positive slopes and c1<=c2 for dsig; |parameters| <= 1e150 * 2^16; flank widths of '
         's/z/pi at least 2^-17 of the magnitude of their break points (below 2^-26 the rounded midpoint (a+b)/2 differs visibly from the real one)',
